@@ -121,7 +121,8 @@ impl Model {
                 self.set.extend(p);
             }
             Op::Slice2Mark(o, o2, x, l) => {
-                let p = self.pages(o + o2 + x, *l);
+                // offsets add modulo 2^64: a slice whose base lies "before 0" comes back into range
+                let p = self.pages(o.wrapping_add(*o2).wrapping_add(*x), *l);
                 self.set.extend(p);
             }
             Op::CloneCheck => {}
@@ -357,6 +358,14 @@ fn alphabet(m: &Model, full: bool) -> Vec<Op> {
         for o2 in [0, 1, p] {
             v.push(Op::Slice2Mark(o, o2, 0, 1));
             v.push(Op::Slice2Mark(o, o2, 1, p));
+        }
+    }
+    // nested slices whose first base is close to usize::MAX and whose second offset brings the
+    // sum back into range (the offsets of slices of slices add up, modulo the address width)
+    for a in [0usize, 0xff] {
+        for t in [0usize, 1, p, b.saturating_sub(1)] {
+            v.push(Op::Slice2Mark(usize::MAX - a, a + 1 + t, 0, 1));
+            v.push(Op::Slice2Mark(usize::MAX - a, a + 1 + t, 1, p));
         }
     }
     for x in [0, 1, p, b] {
